@@ -338,12 +338,19 @@ func askMetafile(t *treeRec, q *question, n int) (esbAnswer, error) {
 	opts.EntryPoints = []string{entry}
 	opts.Metafile = true
 	opts.Outdir = filepath.Join(t.root, "verif-out")
-	opts.Loader = map[string]api.Loader{"": api.LoaderJS}
+	opts.Loader = map[string]api.Loader{"": api.LoaderJS, ".node": api.LoaderCopy}
 	res := api.Build(opts)
 	a := esbAnswer{asked: true}
 	if len(res.Errors) > 0 {
-		a.Err = res.Errors[0].Text
-		return a, nil
+		// only a resolution failure is an answer; any other build error (loading,
+		// parsing) says nothing about resolution
+		for _, e := range res.Errors {
+			if strings.HasPrefix(e.Text, "Could not resolve ") {
+				a.Err = e.Text
+				return a, nil
+			}
+		}
+		return a, fmt.Errorf("build failed for a reason other than resolution: %s", res.Errors[0].Text)
 	}
 	var meta struct {
 		Inputs map[string]struct {
@@ -408,7 +415,7 @@ func Run(r *core.Run) {
 	}
 	var decodeErr error
 	res := tlcrun.MustHold(r, tlcrun.Options{
-		Module: "ResolveMC", Config: cfg, Workers: 8, TimeoutSec: r.Pick(150, 900), NoDeadlock: true,
+		Module: "ResolveMC", Config: cfg, Workers: 8, TimeoutSec: r.Pick(240, 1200), NoDeadlock: true,
 		Coverage: r.Thorough(), KeepOutput: r.Thorough(), XssMB: 64,
 		OnCase: func(raw []byte) {
 			var head struct {
@@ -451,14 +458,17 @@ func Run(r *core.Run) {
 			}
 		},
 	})
-	if res == nil || decodeErr != nil || len(st.qs) == 0 || len(st.labels) == 0 {
+	if res == nil || res.ExitCode != 0 || res.TimedOut || res.Violated != "" {
+		return // MustHold has reported the infrastructure error; no verdict
+	}
+	if decodeErr != nil || len(st.qs) == 0 || len(st.labels) == 0 {
 		r.Infra("TLC produced no usable cases (decode error: %v, questions: %d, labels: %d)", decodeErr, len(st.qs), len(st.labels))
 		return
 	}
 	r.Set("tlc_config", cfg)
 	r.Set("tlc_trees", len(st.trees))
 	r.Set("tlc_questions", len(st.qs))
-	r.Set("exhaustive", true)
+	r.Set("exhaustive", r.Thorough()) // TLC enumerates the whole bounded family in both tiers; quick replays a sample of it
 	for _, q := range st.qs {
 		if st.trees[q.Ti] == nil {
 			r.Infra("question refers to unknown tree %d", q.Ti)
@@ -482,7 +492,7 @@ func Run(r *core.Run) {
 	}
 
 	// 2. choose the questions to replay
-	selected := st.selectQuestions(r.Pick(6000, 1<<30))
+	selected := st.selectQuestions(r.Pick(5000, 1<<30))
 	r.Logf("replaying %d of %d questions on %d trees", len(selected), len(st.qs), countTrees(selected))
 
 	// 3. materialise, ask Node, ask esbuild
@@ -564,7 +574,7 @@ func Run(r *core.Run) {
 	}
 
 	// 5. the same question through a real bundle and its metafile (subset)
-	nMeta := r.Pick(300, 3000)
+	nMeta := r.Pick(150, 3000)
 	metaQs := st.metaSubset(selected, nMeta)
 	var metaMu sync.Mutex
 	metaOutcome := map[string]int64{}
@@ -595,6 +605,10 @@ func Run(r *core.Run) {
 	}
 	sort.Strings(never)
 	sort.Strings(neverEnumerated)
+	r.Set("branches_never_taken_reason", map[string]string{
+		"PKG.empty-specifier": "the empty specifier is not in the family",
+		"PKG.trailing-slash":  "specifiers ending in \"/\" are excluded by the property",
+	})
 	r.Set("branches_total", len(st.labels))
 	r.Set("branches_enumerated_by_tlc", enumerated)
 	r.Set("branches_replayed", taken)
